@@ -12,16 +12,25 @@
 (*   Free(t,h)      ubuf_free(h) is called                                 *)
 (*   Return(t,a)    area a goes back to its allocator (umem_free)          *)
 (*   End            everything the program and its epilogue hold was freed *)
-(* An area is returned once, only when no handle on it is outstanding, and *)
-(* at the end every area has been returned.                                *)
+(*   AllocDead(u)   allocator u ran its destructor (mode xareas: a picture *)
+(*                  manager P over its own allocator, a block of another   *)
+(*                  manager built on the picture's area)                   *)
+(*   MgrRelease(t,m) thread t released its handle on manager m (no guard)  *)
+(* An area is returned once, only when no handle on it is outstanding, to  *)
+(* an allocator that still exists - an allocator does not go away while    *)
+(* one of its areas is outstanding - and at the end every area has been    *)
+(* returned.                                                               *)
 (***************************************************************************)
 EXTENDS Naturals, Integers, Sequences, FiniteSets, TLC, Json, IOUtils
 
 Tr == ndJsonDeserialize(IOEnv.TRACE)
 VARIABLES l, area,     \* handle -> area, for outstanding handles
           st,          \* area -> "live" | "returned"
+          alc,         \* area -> allocator it came from
+          gone,        \* allocators that ran their destructor
           skip, cur, bad
-vars == <<l, area, st, skip, cur, bad>>
+vars == <<l, area, st, alc, gone, skip, cur, bad>>
+Has(ev, f) == f \in DOMAIN ev
 
 Holders(a) == {h \in DOMAIN area : area[h] = a}
 Upd(f, k, v) == [x \in DOMAIN f \cup {k} |-> IF x = k THEN v ELSE f[x]]
@@ -33,26 +42,31 @@ Guard(ev) ==
     [] ev.e = "Dup" -> ev.from \in DOMAIN area /\ ev.h \notin DOMAIN area
     [] ev.e = "Free" -> ev.h \in DOMAIN area
     \* exactly once, after the last holder let go, never while one is outstanding
-    [] ev.e = "Return" -> ev.a \in DOMAIN st /\ st[ev.a] = "live" /\ Holders(ev.a) = {}
+    [] ev.e = "Return" -> ev.a \in DOMAIN st /\ st[ev.a] = "live" /\ Holders(ev.a) = {} /\ alc[ev.a] \notin gone
+    \* an allocator outlives every area it handed out
+    [] ev.e = "AllocDead" -> ev.u \notin gone /\ \A a \in DOMAIN st : alc[a] = ev.u => st[a] = "returned"
+    [] ev.e = "MgrRelease" -> TRUE
     [] ev.e = "End" -> DOMAIN area = {} /\ \A a \in DOMAIN st : st[a] = "returned"
     [] OTHER -> FALSE                       \* Crash, Hang
 
 Effect(ev) ==
-  CASE ev.e = "Alloc" -> area' = Upd(area, ev.h, ev.a) /\ st' = Upd(st, ev.a, "live")
-    [] ev.e = "Dup" -> area' = Upd(area, ev.h, area[ev.from]) /\ st' = st
-    [] ev.e = "Free" -> area' = Del(area, ev.h) /\ st' = st
-    [] ev.e = "Return" -> st' = [st EXCEPT ![ev.a] = "returned"] /\ area' = area
-    [] OTHER -> UNCHANGED <<area, st>>
+  CASE ev.e = "Alloc" -> /\ area' = Upd(area, ev.h, ev.a) /\ st' = Upd(st, ev.a, "live")
+                         /\ alc' = Upd(alc, ev.a, IF Has(ev, "u") THEN ev.u ELSE 0) /\ gone' = gone
+    [] ev.e = "Dup" -> area' = Upd(area, ev.h, area[ev.from]) /\ UNCHANGED <<st, alc, gone>>
+    [] ev.e = "Free" -> area' = Del(area, ev.h) /\ UNCHANGED <<st, alc, gone>>
+    [] ev.e = "Return" -> st' = [st EXCEPT ![ev.a] = "returned"] /\ UNCHANGED <<area, alc, gone>>
+    [] ev.e = "AllocDead" -> gone' = gone \cup {ev.u} /\ UNCHANGED <<area, st, alc>>
+    [] OTHER -> UNCHANGED <<area, st, alc, gone>>
 
 TStep ==
   /\ l <= Len(Tr) /\ l' = l + 1
   /\ LET ev == Tr[l] IN
      IF ev.e = "Reset"
-     THEN area' = <<>> /\ st' = <<>> /\ skip' = FALSE /\ cur' = ev.hid /\ bad' = bad
-     ELSE IF skip THEN UNCHANGED <<area, st, skip, cur, bad>>
+     THEN area' = <<>> /\ st' = <<>> /\ alc' = <<>> /\ gone' = {} /\ skip' = FALSE /\ cur' = ev.hid /\ bad' = bad
+     ELSE IF skip THEN UNCHANGED <<area, st, alc, gone, skip, cur, bad>>
      ELSE IF Guard(ev) THEN Effect(ev) /\ UNCHANGED <<skip, cur, bad>>
-     ELSE skip' = TRUE /\ bad' = bad \cup {<<cur, l>>} /\ UNCHANGED <<area, st, cur>>
-TInit == l = 1 /\ area = <<>> /\ st = <<>> /\ skip = FALSE /\ cur = 0 /\ bad = {}
+     ELSE skip' = TRUE /\ bad' = bad \cup {<<cur, l>>} /\ UNCHANGED <<area, st, alc, gone, cur>>
+TInit == l = 1 /\ area = <<>> /\ st = <<>> /\ alc = <<>> /\ gone = {} /\ skip = FALSE /\ cur = 0 /\ bad = {}
 TSpec == TInit /\ [][TStep]_vars
 Report == (l = Len(Tr) + 1) => PrintT(<<"TRACE_BAD", bad>>)
 Accepted == LET d == TLCGet("stats").diameter IN
